@@ -7,10 +7,14 @@ sys.path.insert(0, V)
 from rules.engine.run import run_property
 
 props = sorted(os.path.basename(p)[:-3] for p in glob.glob(os.path.join(V, 'rules', 'C??.py')))
+if '--out' in sys.argv:
+    _i = sys.argv.index('--out'); _OUT = os.path.abspath(sys.argv[_i + 1]); del sys.argv[_i:_i + 2]
+else:
+    _OUT = None
 patches = []
 for a in sys.argv[1:]:
     patches += [os.path.abspath(x) for x in sorted(glob.glob(os.path.join(a, '*.patch.diff')))] if os.path.isdir(a) else [os.path.abspath(a)]
-out_path = os.path.join(V, 'seeded', 'matrix.json')
+out_path = _OUT or os.path.join(V, 'seeded', 'matrix.json')
 matrix = json.load(open(out_path)) if os.path.exists(out_path) else {}
 for p in patches:
     sid = os.path.basename(p).split('.')[0]
